@@ -290,7 +290,14 @@ pub fn hostile_frame(r: &mut Rng, victim: &Seen, window_hint: u32, allow_big: bo
         // ack frames
         12..=17 => {
             let fb = pick32(r, victim.tx_frame, window_hint);
-            let pb = pick32(r, victim.tx_packet, window_hint);
+            let mut pb = pick32(r, victim.tx_packet, window_hint);
+            // the wire field is 32 bits wide, packet ids use the low 20: a value whose low bits
+            // lie in the victim's window but which is not a packet id at all
+            if r.chance(0.15) {
+                if let Some(h) = victim.tx_packet {
+                    pb = (near(r, h, window_hint) & 0xFFFFF) | ((1 + r.below(4095) as u32) << 20);
+                }
+            }
             let n = *r.pick(&[0usize, 1, 1, 2, 5, 40, 160]);
             let mut groups = Vec::new();
             for _ in 0..n {
